@@ -117,8 +117,23 @@ def range_prov(repo: Repo, rep):
                             continue
                     hops += 1
                     key = (f.key, norm(x))
-                    if key in AUDITED_HOPS:
-                        rep.ok("R-RANGE-PROV", f, x, f"audited hop `{norm(x)}`: {AUDITED_HOPS[key]}")
+                    audited = AUDITED_HOPS.get(key)
+                    if audited is None and m.rel == "_find_external.py" and x.attr in ("body", "first_token", "last_token"):
+                        audited = "module _find_external.py is the import step: the single module-level edit (import insertion) and the read-only import scan"
+                    if audited is None and m.rel == "_change.py" and x.attr == "parent":
+                        # the two audited upward hops, recognised by their guards wherever the code lives
+                        fcfg = cfg_of(f)
+                        xn = fcfg.nodes_containing(x)
+                        from ..cfg import dominating_edges as _de
+
+                        for cn, lab in (_de(fcfg, xn[0]) if xn else []):
+                            t = norm(cn.ast)
+                            if cn.kind == "cond" and lab == "T" and "isinstance" in t and ("Delete" in t or "ast.keyword" in t):
+                                audited = "Delete -> container hop / keyword hop (guarded by the isinstance test)"
+                        if xn and xn[0].kind == "cond" and "ast.keyword" in norm(xn[0].ast):
+                            audited = "test whether the node is a keyword value"
+                    if audited is not None:
+                        rep.ok("R-RANGE-PROV", f, x, f"audited hop `{norm(x)}`: {audited}")
                     else:
                         rep.violation(
                             "R-RANGE-PROV",
@@ -337,5 +352,5 @@ def io_newline(repo: Repo, rep):
                 f,
                 c,
                 "SourceFile.new_code reads the file with universal newlines (read_text) while rewrite() writes the result in binary: a CRLF test file comes back with LF on every line although only a snapshot argument was changed",
-                construct=norm(c),
+                construct=f"{c.func.attr}({', '.join(norm(a) for a in c.args)})",
             )
